@@ -43,7 +43,9 @@ def load_known(prop):
             data = json.load(f)
     except FileNotFoundError:
         return []
-    return [e for e in data.get("findings", []) if e.get("property") == prop]
+    # an entry recorded under another property also applies where its "seen_in" names this one (the same crash is
+    # met by every machine whose workload contains that operation)
+    return [e for e in data.get("findings", []) if e.get("property") == prop or prop in e.get("seen_in", [])]
 
 
 def match_known(machine, known, case, violation):
@@ -412,6 +414,8 @@ def run_check(prop, tier, seed, repo, runs=None, skip_selftest=False, mutants=Fa
             stats.add(results[i])
     main_wall = time.time() - t1
     log("[%s] %d runs in %.1fs (%.0f runs/s): %s" % (prop, len(results), main_wall, len(results) / max(main_wall, 1e-9), stats.kinds))
+    if stats.slowest[0] > 5.0:
+        log("[%s] slowest run: index %s, %.1fs" % (prop, stats.slowest[1], stats.slowest[0]))
 
     # 2b. thorough: the same runs (a slice) on the sanitizer node
     asan_lib = None
@@ -436,11 +440,12 @@ def run_check(prop, tier, seed, repo, runs=None, skip_selftest=False, mutants=Fa
             log("BUILD FAILED (asan)\n" + str(e))
             return 2
 
-    if stats.harness_errors:
-        i, tr = stats.harness_errors[0]
-        log("HARNESS-ERROR in run %d:\n%s" % (i, tr))
-        write_evidence(evidence, ck)
-        return 2
+    # anomalies: results that a worker process whose heap an *earlier* run has silently corrupted can produce - a Python
+    # exception inside the harness, a death or a violation that does not happen again when the run is executed alone.
+    # They are traced back (step 5b): the runs that preceded them on the same worker are executed on the sanitizer node.
+    anomalies = []     # (index, what)
+    for i, tr in stats.harness_errors[:64]:
+        anomalies.append((i, "harness exception"))
 
     # 3. allocator fill cross-check
     if not skip_selftest and opts.get("perturb_sample"):
@@ -494,7 +499,7 @@ def run_check(prop, tier, seed, repo, runs=None, skip_selftest=False, mutants=Fa
             o["run_timeout"] = opts.get("run_timeout", 20.0) * 5
         res = core.run_single_in_child(machine, lib, "case", {"case": case, "perturb": per}, o, timeout=o.get("run_timeout", 20.0))
         if not isinstance(res, WorkerDeath):
-            return ("note", "run %d died (%s) in the batch but not alone: inconclusive, not reported" % (d.index, d.how))
+            return ("anomaly", d.index, "died (%s) in the batch but not alone" % d.how)
         orc, cls = death_class(res.how)
         v = {"oracle": orc, "class": cls, "at": None, "detail": locate(case, per, res.how)}
         if match_known(machine, known, case, v) is not None:
@@ -519,6 +524,8 @@ def run_check(prop, tier, seed, repo, runs=None, skip_selftest=False, mutants=Fa
                     continue
                 if out[0] == "note":
                     ck.notes.append(out[1])
+                elif out[0] == "anomaly":
+                    anomalies.append((out[1], out[2]))
                 else:
                     reports.append(out[1:])
     if len(deaths) > maxd:
@@ -531,6 +538,11 @@ def run_check(prop, tier, seed, repo, runs=None, skip_selftest=False, mutants=Fa
         e = match_known(machine, known, r["case"], r["violation"])
         if e is not None:
             matched.setdefault(e["id"], e)
+            if os.environ.get("AWSIM_SAVE_KNOWN"):   # development aid
+                os.makedirs(os.environ["AWSIM_SAVE_KNOWN"], exist_ok=True)
+                with open(os.path.join(os.environ["AWSIM_SAVE_KNOWN"], "%s-%s-%s.json" % (prop, e["id"], r.get("i"))), "w") as f:
+                    json.dump({"property": prop, "case": r["case"], "violation": r["violation"], "flavour": "plain",
+                               "perturb": 1 + (r.get("seed", 0) >> 8) % 254}, f, default=core._json_default)
         else:
             todo.append(r)
     by_class = {}
@@ -548,19 +560,75 @@ def run_check(prop, tier, seed, repo, runs=None, skip_selftest=False, mutants=Fa
     def shrink_one(r):
         per = 1 + (r.get("seed", 0) >> 8) % 254
         if r.get("noshrink"):
-            return (r["i"], r["case"], r["violation"], "plain", per)
-        case, v, n = shrink_violation(machine, lib, r["case"], r["violation"], opts, per)
-        return (r["i"], case, v, "plain", per)
+            return ("report", r["i"], r["case"], r["violation"], "plain", per)
+        # confirm first: the same case alone in a fresh process
+        res = core.run_single_in_child(machine, lib, "case", {"case": r["case"], "perturb": per}, opts,
+                                       timeout=opts.get("run_timeout", 20.0) * 3)
+        if isinstance(res, WorkerDeath):
+            orc, cls = death_class(res.how)
+            v = {"oracle": orc, "class": cls, "at": None, "detail": locate(r["case"], per, res.how)}
+            return ("report", r["i"], r["case"], v, "plain", per)
+        if res.get("kind") != "violation":
+            return ("anomaly", r["i"], "violated %s/%s in the batch but not alone" % (r["violation"]["oracle"], r["violation"]["class"]))
+        v0 = res["violation"]
+        case, v, n = shrink_violation(machine, lib, r["case"], v0, opts, per)
+        return ("report", r["i"], case, v, "plain", per)
     if chosen:
         import concurrent.futures
         with concurrent.futures.ThreadPoolExecutor(max_workers=8) as ex:
-            reports.extend(ex.map(shrink_one, chosen))
+            for out in ex.map(shrink_one, chosen):
+                if out[0] == "anomaly":
+                    anomalies.append((out[1], out[2]))
+                else:
+                    reports.append(out[1:])
+
+    # 5b. trace anomalies back to the run that poisoned the worker
+    unexplained = []
+    if anomalies:
+        W = ck.workers or int(os.environ.get("AWSIM_WORKERS", os.cpu_count() or 4))
+        W = max(1, min(W, len(indices)))
+        before = set()
+        for i, what in anomalies:
+            if i is None:
+                continue
+            before.update(list(range(i % W, i + 1, W))[-opts.get("traceback_runs", 4000):])
+        log("[%s] %d anomalies (%s ...): executing the %d runs that preceded them on their workers on the sanitizer node"
+            % (prop, len(anomalies), "run %s %s" % anomalies[0], len(before)))
+        found = []
+        try:
+            if asan_lib is None:
+                asan_lib = buildmod.build(repo, "asan")["lib"]
+            ares, adeaths = run_asan_batch(ck, asan_lib, sorted(before))
+            for d in adeaths:
+                d.asan = True
+                out = analyse_death(d)
+                if out and out[0] == "report":
+                    reports.append(out[1:])
+                    found.append(d.index)
+        except buildmod.BuildError as e:
+            log("BUILD FAILED (asan)\n" + str(e))
+            return 2
+        cov["anomalies"] = {"count": len(anomalies), "traced_runs": len(before), "memory_errors_found": len(found)}
+        for i, what in anomalies:
+            culprits = [j for j in found if i is not None and j % W == i % W and j <= i]
+            if culprits:
+                ck.notes.append("run %s %s: explained by the memory error of run %d on the same worker" % (i, what, max(culprits)))
+            else:
+                unexplained.append((i, what))
 
     # 6. regression replays of repaired defects: must not come back
     regress = run_regressions(prop, machine, lib, opts)
     cov["regression_replays"] = {"run": regress["run"], "reproduced": len(regress["reproduced"])}
     for path, case, v in regress["reproduced"]:
         reports.append((None, case, v, "plain", 0xA5))
+    if asan_lib is not None:
+        # the memory errors among them need not kill a plain process: the same replays on the sanitizer node
+        ra = run_regressions(prop, machine, asan_lib, opts, flavour="asan")
+        cov["regression_replays"]["run_on_sanitizer_node"] = ra["run"]
+        cov["regression_replays"]["reproduced"] += len(ra["reproduced"])
+        for path, case, v in ra["reproduced"]:
+            if all(c is not case for _, c, _ in regress["reproduced"]):
+                reports.append((None, case, v, "asan", 0xA5))
 
     # 7. verdict
     exit_code = 0
@@ -569,6 +637,10 @@ def run_check(prop, tier, seed, repo, runs=None, skip_selftest=False, mutants=Fa
         e = match_known(machine, known, case, v)
         if e is not None:
             matched.setdefault(e["id"], e)
+            if os.environ.get("AWSIM_SAVE_KNOWN"):   # development aid: keep the cases that matched a known finding
+                os.makedirs(os.environ["AWSIM_SAVE_KNOWN"], exist_ok=True)
+                with open(os.path.join(os.environ["AWSIM_SAVE_KNOWN"], "%s-%s-%s.json" % (prop, e["id"], index)), "w") as f:
+                    json.dump({"property": prop, "case": case, "violation": v, "flavour": flav, "perturb": per}, f)
             continue
         nviol += 1
         path = write_replay(prop, seed, index, core.run_seed(seed, prop, index) if index is not None else None,
@@ -581,6 +653,16 @@ def run_check(prop, tier, seed, repo, runs=None, skip_selftest=False, mutants=Fa
     for e in matched.values():
         print("KNOWN-FINDING: property=%s %s" % (prop, e["what"]))
     evidence["violations"] = nviol
+
+    if unexplained:
+        # results that do not repeat and that no memory error explains: the harness, not the property, is in doubt
+        for i, what in unexplained[:10]:
+            log("HARNESS-ERROR: run %s %s, and no earlier run on its worker fails under the sanitizer" % (i, what))
+        if stats.harness_errors:
+            log(str(stats.harness_errors[0][1]))
+        evidence["violations"] = nviol
+        write_evidence(evidence, ck)
+        return 2
 
     # 8. mutants (sensitivity self-test)
     if mutants or opts.get("mutants"):
@@ -610,7 +692,7 @@ def regenerate(machine, seed, prop, index, opts):
         return None
 
 
-def run_regressions(prop, machine, lib, opts):
+def run_regressions(prop, machine, lib, opts, flavour="plain"):
     d = os.path.join(core.REPLAYS, "regression")
     out = {"run": 0, "reproduced": []}
     if not os.path.isdir(d):
@@ -621,8 +703,11 @@ def run_regressions(prop, machine, lib, opts):
             continue
         with open(os.path.join(d, name)) as f:
             doc = json.load(f)
-        res = core.run_single_in_child(machine, lib, "case", {"case": doc["case"], "perturb": doc.get("perturb", 0xA5)}, opts,
-                                       timeout=opts.get("run_timeout", 20.0))
+        payload = {"case": doc["case"], "perturb": doc.get("perturb", 0xA5)}
+        if flavour == "asan":
+            res = run_child_maybe_asan(machine, lib, payload, opts, "asan", timeout=opts.get("run_timeout", 20.0) * 3)
+        else:
+            res = core.run_single_in_child(machine, lib, "case", payload, opts, timeout=opts.get("run_timeout", 20.0))
         out["run"] += 1
         if isinstance(res, WorkerDeath):
             orc, cls = death_class(res.how)
@@ -658,6 +743,7 @@ class Stats:
         self.kinds = {}
         self.violations = []
         self.harness_errors = []
+        self.slowest = (0.0, None)
         self.faults = {}
         self.probes = {}
         self.states = set()
@@ -670,6 +756,8 @@ class Stats:
 
     def add(self, r):
         self.n += 1
+        if r.get("dt", 0) > self.slowest[0]:
+            self.slowest = (r["dt"], r.get("i"))
         k = r.get("kind")
         self.kinds[k] = self.kinds.get(k, 0) + 1
         if k == "harness_error":
